@@ -733,7 +733,7 @@ def naive(repo, chk):
         # [f'f{x}' for x in range(<number of columns of the sample / the frame>)]
         try:
             rng = ct[2][0][0]
-            return ct[0] == 'listcomp' and ct[1] == ('fstr', (('str', 'f'), ('fmt', ('cvar', 0, 0)))) and len(ct[2]) == 1 and not ct[2][0][1] and rng[0] == 'call' and rng[1] == ('name', 'range') and len(rng[2]) == 1 \
+            return ct[0] == 'listcomp' and ct[1] in (('fstr', (('str', 'f'), ('fmt', ('cvar', 0, 0)))), ('concat', (('str', 'f'), ('cvar', 0, 0)))) and len(ct[2]) == 1 and not ct[2][0][1] and rng[0] == 'call' and rng[1] == ('name', 'range') and len(rng[2]) == 1 \
                 and rng[2][0][0] == 'sub' and rng[2][0][2] == ('num', 1) and rng[2][0][1][0] == 'attr' and rng[2][0][1][2] == 'shape'
         except (IndexError, TypeError):
             return False
